@@ -17,6 +17,7 @@ structure Slot where
   respFut : Bool := false
   body : Bool := false
   fc : Bool := false
+  responder : Bool := false
   sentOff : Nat := 0
   deriving Repr
 
@@ -31,6 +32,8 @@ structure World where
   sr : Option SendRequest := none
   clones : List SendRequest := []
   slots : List Slot := []
+  /-- `ConnKind::Server` -/
+  isServer : Bool := false
   /-- the harness holds the `h2::PingPong` handle -/
   pingHandle : Bool := false
   /-- `ConnKind::Gone` after `cn_dropconn`: the handles of the slots still reach the stream state -/
@@ -153,6 +156,7 @@ def parseCfg (ws : List String) : Option Conn.Cfg :=
         | "budget" => some { g with budget := n }
         | "first_id" => some { g with firstId := n }
         | "reset_secs" => some { g with resetSecs := n }
+        | "ecp" => some g
         | _ => none
     | _ => none) ({} : Conn.Cfg)
 
@@ -165,7 +169,7 @@ def finish (w : World) (c : Conn) (r : String) (wkKnown : Bool := true) : World 
   let tx := if c.codec.io.tx.isEmpty then "-" else ";".intercalate c.codec.io.tx
   let wk := dedup c.streams.wakes []
   let wks := if !wkKnown then "?" else if wk.isEmpty then "-" else ",".intercalate wk
-  let bad := c.unsupported.isSome || c.codec.w.unsupported
+  let bad := c.unsupported.isSome || c.codec.w.unsupported || c.streams.unsupported.isSome
   if c.streams.panicked.isSome then ({ w with conn := some c, gaveUp := true }, "panic")
   else if bad then ({ w with conn := some c, gaveUp := true }, "unmodelled")
   else
@@ -191,14 +195,16 @@ def dropHandles (s : Streams) (slot : Slot) (which : String) : Streams × Slot :
     if p.2.body then ((p.1.refClearRecvBuffer p.2.key).dropStreamRef p.2.key, { p.2 with body := false }) else p
   let dFc := fun (p : Streams × Slot) =>
     if p.2.fc then (p.1.dropStreamRef p.2.key, { p.2 with fc := false }) else p
+  let dResponder := fun (p : Streams × Slot) =>
+    if p.2.responder then (p.1.dropStreamRef p.2.key, { p.2 with responder := false }) else p
   match which with
   | "send" => dSend (s, slot)
   | "resp" => dResp (s, slot)
   | "body" => dBody (s, slot)
   | "fc" => dFc (s, slot)
-  | "responder" => (s, slot)
+  | "responder" => dResponder (s, slot)
   | "pushes" => (s, slot)
-  | _ => dFc (dBody (dResp (dSend (s, slot))))
+  | _ => dResponder (dFc (dBody (dResp (dSend (s, slot)))))
 
 /-- the harness drops `ConnKind::Client(conn, sr, clones)` field by field: `Drop for proto::Connection`
     (`recv_eof(true)`), the connection's fields (`ping_pong` — `UserPingsRx` — before `streams`),
@@ -299,7 +305,8 @@ def stepConn (w : World) (c : Conn) (ws : List String) : Option (World × String
       some (finish { w with connGone := true, sr := none, clones := [] } c "ok")
   | ["cn_poll"] =>
     if w.connGone then some (finish w c "gone") else
-    let (c, r) := c.clientPoll OP_FUEL
+    let c := { c with cx := WAKER_CONN }
+    let (c, r) := if w.isServer then c.protoPoll OP_FUEL else c.clientPoll OP_FUEL
     let rs := match r with
       | .pending => "pending"
       | .ready (.ok _) => "done"
@@ -341,6 +348,75 @@ def stepConn (w : World) (c : Conn) (ws : List String) : Option (World × String
       | (s, .ok true) =>
         let s := match sr.pending with | some old => s.dropStreamRef old | none => s
         some (finish { w with sr := some { sr with pending := none } } (withStreams c s) "ready")
+  | ["cn_accept"] =>
+    if !w.isServer || w.connGone then some (finish w c "nohandle")
+    else
+      let (c, r) := ({ c with cx := "a" }).protoPoll OP_FUEL
+      match r with
+      | .ready (.ok _) => some (finish w c "none")
+      | .ready (.error e) => some (finish w c ("err:" ++ renderApiErr (.proto e)))
+      | .pending =>
+        match c.streams.nextIncoming with
+        | (s, none) => some (finish w (withStreams c s) "pending")
+        | (s, some key) =>
+          match s.recvTakeRequest key with
+          | (s, none) => some (finish w (withStreams c s) "panic")
+          | (s, some (method, uri, fields)) =>
+            -- `RecvStream::new(FlowControl::new(inner.clone_to_opaque()))`
+            let s := s.cloneStreamRef key
+            let sid := (s.stream key).id
+            let w := { w with slots := w.slots ++ [{ key := key, sid := sid, body := true, responder := true }] }
+            some (finish w (withStreams c s)
+              s!"ok:{w.slots.length - 1}:{sid}:{bytesToString method}:{Hex.render uri}:{renderFieldsHex fields}")
+  | ["cn_respond", k, status, eos] =>
+    match getSlot w k, status.toNat? with
+    | some (i, slot), some st =>
+      if st < 100 || st > 999 then none               -- `Response::builder().status(..)` refuses it: bad-op
+      else if !slot.responder then some (finish w c "nohandle")
+      else
+        match c.streams.refSendResponse slot.key [field ":status" status] (eos == "1") with
+        | (s, .error e) => some (finish w (withStreams c s) ("err:" ++ renderApiErr (.user e)))
+        | (s, .ok _) =>
+          -- `SendStream::new(self.inner.clone())`, then the slot's old `send` (if any) is dropped
+          let s := s.cloneStreamRef slot.key
+          let s := if slot.send then s.dropStreamRef slot.key else s
+          some (finish (setSlot w i { slot with send := true }) (withStreams c s) "ok")
+    | _, _ => none
+  | ["cn_inform", k, status] =>
+    match getSlot w k, status.toNat? with
+    | some (_, slot), some st =>
+      if st < 100 || st > 999 then none
+      else if !slot.responder then some (finish w c "nohandle")
+      else if st ≥ 200 then some (finish w c ("err:" ++ renderApiErr (.user .invalidInformationalStatusCode)))
+      else
+        match c.streams.refSendInformationalHeaders slot.key [field ":status" status] with
+        | (s, .error e) => some (finish w (withStreams c s) ("err:" ++ renderApiErr (.user e)))
+        | (s, .ok _) => some (finish w (withStreams c s) "ok")
+    | _, _ => none
+  | ["cn_push", k, path] =>
+    match getSlot w k with
+    | some (_, slot) =>
+      if !slot.responder then some (finish w c "nohandle")
+      else
+        let fields := [field ":method" "GET", field ":scheme" "http", field ":authority" "example.com",
+                       field ":path" (if path.isEmpty then "/" else path)]
+        match c.streams.refSendPushPromise slot.key true fields with
+        | (s, .error e) => some (finish w (withStreams c s) ("err:" ++ renderApiErr (.user e)))
+        | (s, .ok child) =>
+          let sid := (s.stream child).id
+          -- the harness drops the `SendPushedResponse` at once
+          some (finish w (withStreams c (s.dropStreamRef child)) s!"ok:{sid}")
+    | none => none
+  | ["cn_graceful"] =>
+    if !w.isServer || w.connGone then some (finish w c "nohandle")
+    else some (finish w c.goAwayGracefully "ok")
+  | ["cn_abrupt", code] =>
+    match code.toNat? with
+    | some code =>
+      if code > U32_MAX then none
+      else if !w.isServer || w.connGone then some (finish w c "nohandle")
+      else some (finish w (c.goAwayFromUser code) "ok")
+    | none => none
   | ["cn_clone_sr"] =>
     match w.sr with
     | none => some (finish w c "nohandle")
@@ -348,7 +424,7 @@ def stepConn (w : World) (c : Conn) (ws : List String) : Option (World × String
       let w := { w with clones := w.clones ++ [{}] }
       some (finish w (withStreams c c.streams.cloneHandle) s!"ok:{w.clones.length}")
   | ["cn_drop_sr", which] =>
-    if w.connGone then some (finish w c "nohandle")
+    if w.connGone || w.isServer then some (finish w c "nohandle")
     else if which == "main" then
       match w.sr with
       | some sr =>
@@ -410,15 +486,16 @@ def stepConn (w : World) (c : Conn) (ws : List String) : Option (World × String
     match getSlot w k, code.toNat? with
     | some (_, slot), some code =>
       if code > U32_MAX then none
-      else if !slot.send then some (finish w c "nohandle")
+      else if !slot.send && !slot.responder then some (finish w c "nohandle")
       else some (finish w (withStreams c (c.streams.refSendReset slot.key code)) "ok")
     | _, _ => none
   | ["cn_pollreset", k] =>
     match getSlot w k with
     | some (_, slot) =>
-      if !slot.send then some (finish w c "nohandle")
+      if !slot.send && !slot.responder then some (finish w c "nohandle")
       else
-        let (s, r) := c.streams.pollReset slot.key .streaming s!"s{k}"
+        -- `SendStream::poll_reset` (Streaming) wins over `SendResponse::poll_reset` (AwaitingHeaders)
+        let (s, r) := c.streams.pollReset slot.key (if slot.send then .streaming else .awaitingHeaders) s!"s{k}"
         let rs := match r with
           | .ok none => "pending"
           | .ok (some reason) => s!"reset:{reason}"
@@ -552,12 +629,25 @@ def stepConn (w : World) (c : Conn) (ws : List String) : Option (World × String
   | _ => none
 
 /-- ops the harness knows and the model does not -/
-def notModelled : List String :=
-  ["cn_accept", "cn_respond", "cn_inform", "cn_push", "cn_graceful", "cn_abrupt"]
+def notModelled : List String := []
 
 /-- one op line: the new world and the answer line (`unmodelled` when the model has no answer) -/
 def step (w : World) (ws : List String) : World × String :=
   match ws with
+  | "cn_new" :: "server" :: opts =>
+    let peerHex := (opts.find? (·.startsWith "peer_settings=")).map fun o => (o.drop "peer_settings=".length).toString
+    let peerFirst : Option Bytes := match peerHex with
+      | some h => (Hex.toBytes? h).orElse fun _ => some [0, 0, 0, 4, 0, 0, 0, 0, 0]
+      | none => some [0, 0, 0, 4, 0, 0, 0, 0, 0]
+    let ecp := opts.any fun o => o.startsWith "ecp=" && o != "ecp=0"
+    match parseCfg (opts.filter fun o => !(o.startsWith "peer_settings=")), peerFirst with
+    | some g, some pf =>
+      let c := Conn.initServer g ecp pf
+      let w' : World := { conn := none, sr := none, clones := [], slots := [], isServer := true, gaveUp := false }
+      match teardownWakes w with
+      | some wk => finish w' { c with streams := c.streams.wake wk } "ok"
+      | none => finish w' c "ok" (wkKnown := false)
+    | _, _ => ({ conn := none, gaveUp := true }, "unmodelled")
   | "cn_new" :: role :: opts =>
     if role != "client" then ({ conn := none, gaveUp := true }, "unmodelled")
     else match parseCfg opts with
